@@ -107,6 +107,18 @@ pub fn arb_username() -> BoxedStrategy<String> {
             out.extend(s.chars().skip(mid));
             out
         }),
+        // boundary: ASCII filler plus one mapped fragment (shrinking or growing under OpaqueString) so that the input
+        // and the enforced form lie on different sides of the 508-byte limit, or both just inside
+        1 => (0usize..MAPPED.len(), 498usize..=512, any::<u8>()).prop_map(|(k, raw_len, pos)| {
+            let frag = MAPPED[k].0;
+            let fill = raw_len.saturating_sub(frag.len()).max(2);
+            let cut = 1 + (pos as usize * (fill - 1) >> 8);
+            let mut out = String::with_capacity(raw_len);
+            out.extend(std::iter::repeat('u').take(cut));
+            out.push_str(frag);
+            out.extend(std::iter::repeat('v').take(fill - cut));
+            out
+        }),
     ]
     .boxed()
 }
@@ -453,7 +465,7 @@ pub fn arb_plain_attr(o: GenOpts) -> BoxedStrategy<RAttr> {
 }
 
 /// (input fragment, OpaqueString-enforced form): non-ASCII spaces, decomposed sequences and NFC singletons.
-pub const MAPPED: [(&str, &str); 12] = [
+pub const MAPPED: [(&str, &str); 14] = [
     ("\u{a0}", " "),
     ("\u{1680}", " "),
     ("\u{2003}", " "),
@@ -466,13 +478,16 @@ pub const MAPPED: [(&str, &str); 12] = [
     ("n\u{303}", "\u{f1}"),
     ("A\u{30a}", "\u{c5}"),
     ("\u{212b}", "\u{c5}"),
+    // composition exclusions: NFC leaves them decomposed, so the enforced form is LONGER than the input (3 -> 6 bytes)
+    ("\u{958}", "\u{915}\u{93c}"),
+    ("\u{95b}", "\u{91c}\u{93c}"),
 ];
 
 /// Text for passwords / realms / user names of integrity keys: stable text, sometimes with one mapped fragment inside.
 pub fn arb_keytext(limit: usize) -> BoxedStrategy<String> {
     prop_oneof![
         3 => arb_opaque(limit),
-        1 => (arb_text(1, limit.min(24), &[0, 1, 3]), 0usize..12).prop_map(|(s, k)| {
+        1 => (arb_text(1, limit.min(24), &[0, 1, 3]), 0usize..MAPPED.len()).prop_map(|(s, k)| {
             let mid = s.chars().count() / 2;
             let mut out: String = s.chars().take(mid).collect();
             out.push('x');
